@@ -317,37 +317,82 @@ Definition cell_eqb (a b : cell) : bool :=
   if Z.eqb (c_val a) (c_val b)
   then if Bool.eqb (c_closed a) (c_closed b) then Bool.eqb (c_set a) (c_set b) else false
   else false.
-(* State identification used by the matcher.  A cell is DEAD when its channel is closed, it is
-   not the current cell, and no goroutine holds a reference to it (as the cell a Set is about to
-   close, or as the cell a Value obtained).  A dead cell can never be observed again (the pointer
-   only moves to fresh cells), so two states that differ only in the values of dead cells have the
-   same future behaviour; the matcher identifies them.  This keeps the set of candidate states
-   small when many overlapping Sets were never observed by a Value. *)
+Definition st_eqb (a b : st) : bool :=
+  if optnat_eqb (ptr a) (ptr b)
+  then if list_eqb thread_eqb (ths a) (ths b)
+       then if list_eqb cell_eqb (cells a) (cells b)
+            then list_eqb Bool.eqb (gates a) (gates b)
+            else false
+       else false
+  else false.
+
+(* ---- state reduction used by the matcher ----
+   A cell is DEAD when its channel is closed, it is not the current cell, and no goroutine holds a
+   reference to it (as the cell a Set is about to close, or as the cell a Value obtained / an
+   observer waits on).  A dead cell can never be observed again (the pointer only moves to fresh
+   cells).  The VALUE of a cell can only be observed through the pointer (a later Load) or by a
+   Value call that already holds the cell.  [canon] drops dead cells (renumbering the references),
+   clears unobservable values and the ghost flag c_set.  A state and its canonical form have the
+   same visible behaviour (same enabled labels, canonical forms of the successors agree), so
+   running the matcher on canonical forms accepts exactly the same histories; it keeps the set of
+   candidate states small when many overlapping Sets were never observed by a Value.
+   [accepts_history_plain] is the matcher without this reduction (used to cross-check it). *)
 Definition refers (k : nat) (x : thread) : bool :=
   match t_pc x with
   | PSetSwapped (Some j) | PValGot j | PValPolled j _ | PWait j => Nat.eqb j k
   | _ => false
   end.
 
+Definition reads_value (k : nat) (x : thread) : bool :=
+  match t_pc x with
+  | PValGot j | PValPolled j _ => Nat.eqb j k
+  | _ => false
+  end.
+
 Definition dead (s : st) (k : nat) (c : cell) : bool :=
   c_closed c && negb (optnat_eqb (ptr s) (Some k)) && negb (existsb (refers k) (ths s)).
 
-Fixpoint norm_from (s : st) (k : nat) (cs : list cell) : list cell :=
+Fixpoint live_from (s : st) (k : nat) (cs : list cell) : list bool :=
   match cs with
   | [] => []
-  | c :: t => (if dead s k c then mkCell 0%Z true true else c) :: norm_from s (S k) t
+  | c :: t => negb (dead s k c) :: live_from s (S k) t
   end.
 
-Definition norm_cells (s : st) : list cell := norm_from s 0 (cells s).
+(* the new index of cell k: the number of live cells before it *)
+Fixpoint renum (lv : list bool) (k : nat) : nat :=
+  match k, lv with
+  | S k', b :: t => (if b then 1 else 0) + renum t k'
+  | _, _ => 0
+  end.
 
-Definition st_eqb (a b : st) : bool :=
-  if optnat_eqb (ptr a) (ptr b)
-  then if list_eqb thread_eqb (ths a) (ths b)
-       then if list_eqb cell_eqb (norm_cells a) (norm_cells b)
-            then list_eqb Bool.eqb (gates a) (gates b)
-            else false
-       else false
-  else false.
+Fixpoint compact_from (s : st) (k : nat) (cs : list cell) : list cell :=
+  match cs with
+  | [] => []
+  | c :: t =>
+      if dead s k c then compact_from s (S k) t
+      else mkCell (if optnat_eqb (ptr s) (Some k) || existsb (reads_value k) (ths s) then c_val c else 0%Z)
+                  (c_closed c) true
+           :: compact_from s (S k) t
+  end.
+
+Definition renum_pc (lv : list bool) (p : pc) : pc :=
+  match p with
+  | PSetSwapped (Some k) => PSetSwapped (Some (renum lv k))
+  | PValGot k => PValGot (renum lv k)
+  | PValPolled k b => PValPolled (renum lv k) b
+  | PWait k => PWait (renum lv k)
+  | _ => p
+  end.
+
+Definition canon (s : st) : st :=
+  let lv := live_from s 0 (cells s) in
+  mkSt (map (fun x => mkT (t_gate x) (t_prog x) (renum_pc lv (t_pc x))) (ths s))
+       (compact_from s 0 (cells s))
+       (match ptr s with Some k => Some (renum lv k) | None => None end)
+       (gates s).
+
+Definition cqstep (s : st) (l : lab) : option st :=
+  match qstep s l with Some s' => Some (canon s') | None => None end.
 
 (* the initial state of a scenario: thread t has the configured start gate and program *)
 Definition init (cfg : list (option nat * list act)) (ngates : nat) : st :=
@@ -355,8 +400,12 @@ Definition init (cfg : list (option nat * list act)) (ngates : nat) : st :=
 
 (* history acceptance: some run of the model produces exactly the recorded events, in order *)
 Definition accepts_history (cfg : list (option nat * list act)) (ngates : nat) (evs : list lab) : bool :=
-  accepts qstep vis lab_eqb st_eqb tau_labels (fun _ e => [e]) 64 (init cfg ngates) evs.
+  accepts cqstep vis lab_eqb st_eqb tau_labels (fun _ e => [e]) 64 (init cfg ngates) evs.
 
 Definition first_rejected (cfg : list (option nat * list act)) (ngates : nat) (evs : list lab) : option nat :=
-  first_reject qstep vis lab_eqb st_eqb tau_labels (fun _ e => [e]) 64
-               (close qstep vis st_eqb tau_labels 64 [init cfg ngates]) evs O.
+  first_reject cqstep vis lab_eqb st_eqb tau_labels (fun _ e => [e]) 64
+               (close cqstep vis st_eqb tau_labels 64 [init cfg ngates]) evs O.
+
+(* the same without the state reduction *)
+Definition accepts_history_plain (cfg : list (option nat * list act)) (ngates : nat) (evs : list lab) : bool :=
+  accepts qstep vis lab_eqb st_eqb tau_labels (fun _ e => [e]) 64 (init cfg ngates) evs.
